@@ -172,6 +172,7 @@ var entFrags = []string{"&", "&", "#", "x", ";", ";", "&#", "&#x", "&#X", "0", "
 	"a", "f", "F", "A", "g", "amp", "lt", "gt", "quot", "Tab", "AElig", "num", "semi", "e", "bb", "q", "am", "p", "l", "t",
 	"&amp;", "&lt;", "&#38;", "&#x26;", "&#60;", "&#x3c;", "&#35;", "&#59;", "&#120;", "&#112;", "&#x41;", "&#65;", "&#0;", "&#x80;", "&#x3E8;", "&#x2710;",
 	"&AElig;", "&hellip;", "&nbsp;", "&CounterClockwiseContourIntegral;", "&a;", "&e;", "&bb;", "&q;", "&fjlig;", "&num;", "&semi;",
+	"&#xFFFF;", "&#x10000;", "&#x10000", "&#x100000;", "&#x0010000;", "&#x1000041;", "&#xfffff;", "&#x10FFFF;", "&#x110000;", "&#x100000000000000000000041;",
 	"&LT;", "&GT;", "&QUOT;", "&AMP;", "&b;", "LT", "&lt", "&apos;",
 	"&#9;", "&#10;", "&#99;", "&#100;", "&#127;", "&#128;", "&#129;", "&#x9;", "&#xA;", "&#xf;", "&#x10;", "&#x7f;", "&#x7F;", "&#xFF;", "&#x100;",
 	"&#x3E7;", "&#x270F;", "&#x270f;", "&#1;", "&#01;", "&#x01;", "&#34;", "&#39;", "&#x22;", "&#x27;",
@@ -340,6 +341,13 @@ func entGen(fn string) func(r *Rng, tier string, emit func(Case)) {
 			suffix := []string{"", "a", "#", ";", " "}[v%5]
 			emit(bytesCase(fn, m.encode(), []byte(fmt.Sprintf("&#x%x;%s", v, suffix))))
 			emit(bytesCase(fn, m.encode(), []byte(fmt.Sprintf("&#x%X;", v))))
+			if v <= 64 {
+				// around the point where the hexadecimal loop gives up (0x10000), with more digits behind it
+				w := 0xFFE0 + v
+				emit(bytesCase(fn, m.encode(), []byte(fmt.Sprintf("&#x%x;%s", w, suffix))))
+				emit(bytesCase(fn, m.encode(), []byte(fmt.Sprintf("&#x%x%x;&#65;", w, v))))
+				emit(bytesCase(fn, m.encode(), []byte(fmt.Sprintf("&#x%x41;", w))))
+			}
 			if v <= 300 {
 				emit(bytesCase(fn, m.encode(), []byte(fmt.Sprintf("&#%d;%s", v, suffix))))
 				emit(bytesCase(fn, m.encode(), []byte(fmt.Sprintf("&#%03d;", v))))
@@ -857,6 +865,11 @@ func c17EntOracle(r *Rng, tier string, rep *Report) {
 	allStrings([]byte{'&', ';', 'a', 'm', 'p', '#'}, k, func(b []byte) { check(ms[1+len(b)%2], b) })
 	for v := 0; v <= 10100; v++ {
 		check(ms[v%len(ms)], []byte(fmt.Sprintf("&#x%x;", v)))
+		if v <= 64 {
+			check(ms[v%len(ms)], []byte(fmt.Sprintf("&#x%x;", 0xFFE0+v)))
+			check(ms[v%len(ms)], []byte(fmt.Sprintf("&#x%x%x;", 0xFFE0+v, v)))
+			check(ms[v%len(ms)], []byte(fmt.Sprintf("&#x1%0*d41;", v, 0)))
+		}
 		if v <= 300 {
 			check(ms[v%len(ms)], []byte(fmt.Sprintf("&#%d;", v)))
 		}
